@@ -471,6 +471,12 @@ def run_scenario(args):
             sc = scen_gen.rand_scenario(rng)
         else:
             sc = kind_scenario(kind, rng)
+            if idx % 2 == 0:
+                # the package's other two top-level entry points hand their mode flags to the environment they build
+                import nasim, os
+                ypath = os.path.join(C.REPO, "nasim", "scenarios", "benchmark", "tiny.yaml")
+                res["entry_points"] = (C.entry_point_flags(lambda **kw: nasim.load(ypath, **kw), "nasim.load")
+                                       + C.entry_point_flags(lambda **kw: nasim.generate(5, 2, seed=1, **kw), "nasim.generate"))
         res["shape"] = getattr(sc, "_shape", kind)
         res["hosts"] = len(sc.hosts)
         lines = C.scenario_lines(sc)
@@ -627,6 +633,9 @@ def attribute(res_list):
                     drift.append(dict(property=pid, kind="correspondence",
                                       what=f"model and implementation differ in {fields[:4]}",
                                       replay=replay))
+        for own, what in r.get("entry_points", []):
+            findings.append(dict(property=own, kind="failing-input", what=what,
+                                 replay=dict(kind="entry-point", what=what)))
         for fv in r["frame_violations"]:
             findings.append(dict(property="C13", kind="failing-input", what=fv["what"],
                                  replay=dict(kind="frame", scenario_index=r["idx"], what=fv["what"])))
